@@ -930,7 +930,8 @@ def report(ctx: Ctx, runner: Runner, step: Step, batch: Batch, bad: List[Tuple[s
 
 def plan_batches(ctx: Ctx, ok_cases: List[Case], bad_cases: List[Case], donors: Dict[str, str], thorough: bool) -> List[Batch]:
     rng = ctx.rng
-    seeds = ["1", "2", "random"] + (["3", "random", "unset"] if thorough else [])
+    # "random" as concrete seeds drawn from ctx.rng, so that a replay re-runs the same seed
+    seeds = ["1", "2", str(rng.randrange(3, 1 << 32))] + (["3", str(rng.randrange(3, 1 << 32)), "unset"] if thorough else [])
     batches: List[Batch] = []
     n_ok = len(ok_cases)
     for bi, hs in enumerate(seeds):
